@@ -11,3 +11,16 @@ def fns():
         Fn(M, '_murmur3', 'murmur3_py', [('data', BYTES)], Z,
            externs={'body_and_tail': ('body_and_tail', [BYTES], tup(BYTES, BYTES, Z), False)}),
     ]
+
+
+def token_fns():
+    """Murmur3Token.hash_fn: `murmur3` is the module-level name bound to cmurmur3.murmur3 or _murmur3
+    (cassandra/murmur3.py falls back to _murmur3, so it is never None: assumption recorded here)."""
+    return fns() + [
+        Fn('cassandra/metadata.py', 'Murmur3Token.hash_fn', 'murmur3_hash_fn', [('key', BYTES)], Z,
+           externs={'murmur3': ('murmur3_py', [BYTES], Z, True)}, assume={'murmur3 is not None': True}),
+    ]
+
+
+def bytes_token_fns():
+    return [Fn('cassandra/metadata.py', 'BytesToken.hash_fn', 'bytes_hash_fn', [('key', BYTES)], BYTES)]
